@@ -518,7 +518,9 @@ var iterTermKinds = []itkind{
 		return fpMapStr(iterator.ToMap(pairs(it), hash.Number[int]()))
 	}),
 	simple("iterator.ToGoMap", refLastWins, func(e *env, cb *int, it fp.Iterator[int]) string { return mapStr(iterator.ToGoMap(pairs(it))) }),
-	simple("iterator.ToSet", refSet, func(e *env, cb *int, it fp.Iterator[int]) string { return fpSetStr(iterator.ToSet(it, hash.Number[int]())) }),
+	simple("iterator.ToSet", refSet, func(e *env, cb *int, it fp.Iterator[int]) string {
+		return fpSetStr(iterator.ToSet(it, hash.Number[int]()))
+	}),
 	simple("iterator.ToGoSet", refSet, func(e *env, cb *int, it fp.Iterator[int]) string {
 		keys := []int{}
 		for k, ok := range iterator.ToGoSet(it) {
@@ -531,7 +533,9 @@ var iterTermKinds = []itkind{
 	}),
 	simple("iterator.Min", refMin, func(e *env, cb *int, it fp.Iterator[int]) string { return optStr(iterator.Min(it, ord.Given[int]())) }),
 	simple("iterator.Max", refMax, func(e *env, cb *int, it fp.Iterator[int]) string { return optStr(iterator.Max(it, ord.Given[int]())) }),
-	simple("iterator.Sort", refSorted, func(e *env, cb *int, it fp.Iterator[int]) string { return fmt.Sprint([]int(iterator.Sort(it, ord.Given[int]()))) }),
+	simple("iterator.Sort", refSorted, func(e *env, cb *int, it fp.Iterator[int]) string {
+		return fmt.Sprint([]int(iterator.Sort(it, ord.Given[int]())))
+	}),
 	{"iterator.ToList", func(x *mc.X, pos int, red bool) iterm {
 		k := []int{99, 0, 1, 2}[x.Choose(4, "cells")]
 		return iterm{label: fmt.Sprintf("ToList, walk %d cells twice", k), shortCircuit: k < 99, ref: func(in []int) string { return refFirst(k)(in) + refFirst(k)(in) },
